@@ -277,6 +277,47 @@ def gen_c20(rng, tier):
     return cases
 
 
+def gen_c05(rng, tier):
+    cases = []
+    nw = 6 if tier == 'quick' else 40
+    for wi in range(nw):
+        w = World(rng, selfmode=bool(wi % 2), denymode=bool((wi // 2) % 2))
+        frames = []
+        # ARP: operations, field variants, handled / unhandled targets
+        for op in [1, 1, 1, 2, 0, 3, 4, 8, 65535, rng.below(65536)]:
+            for tpa in [w.my4, w.other4, rng.bytes(4)]:
+                frames.append(eth(rng.choice([BCAST, w.mac]), w.cl_mac, 0x0806,
+                                  arp(op, w.cl_mac, w.cl4, rng.choice([bytes(6), rng.bytes(6)]), tpa,
+                                      pad=rng.choice([b'', bytes(18), rng.bytes(rng.below(20))]))))
+        for _ in range(10):
+            frames.append(eth(BCAST, w.cl_mac, 0x0806, arp(1, w.cl_mac, w.cl4, bytes(6), w.my4, htype=rng.choice([1, 6, 0]),
+                                                            ptype=rng.choice([0x0800, 0x86dd]), hlen=rng.choice([6, 8]), plen=rng.choice([4, 16]))))
+        # ICMPv4 / ICMPv6 type x code grids (sampled in quick, exhaustive over the cross in thorough)
+        types4 = [8, 0, 3, 5, 11, 13, 15, 17] + [rng.below(256) for _ in range(8 if tier == 'quick' else 60)]
+        types6 = [128, 135, 129, 136, 133, 134, 1, 2, 3] + [rng.below(256) for _ in range(8 if tier == 'quick' else 60)]
+        codes = [0, 0, 1, 255, rng.below(256)] + ([rng.below(256) for _ in range(10)] if tier == 'thorough' else [])
+        for ty in types4:
+            for code in codes:
+                ln = rng.choice([0, 1, 4, 8, 13, 56, 100, 1472, rng.below(1473)])
+                frames.append(w.f4(1, icmp(ty, code, rng.bytes(ln)), dst=rng.choice([None, None, None, w.other4])))
+        for ty in types6:
+            for code in codes:
+                dst = rng.choice([None, None, None, w.other6])
+                if ty == 135:
+                    tgt = rng.choice([w.my6, w.my6, w.other6])
+                    rest = bytes(4) + tgt + rng.choice([b'', bytes([1, 1]) + w.cl_mac, rng.bytes(8)])
+                    if rng.chance(1, 6):
+                        rest = rest[:rng.below(len(rest))]
+                    sn = bytes.fromhex('ff0200000000000000000001ff') + tgt[13:]
+                    frames.append(eth(rng.choice([w.mac, bytes([0x33, 0x33, 0xff]) + tgt[13:]]), w.cl_mac, 0x86dd,
+                                      ipv6(w.cl6, rng.choice([sn, w.my6]), 58, icmp6(135, code, rest, w.cl6, sn))))
+                else:
+                    ln = rng.choice([0, 1, 4, 8, 13, 56, 100, 1452, rng.below(1453)])
+                    frames.append(w.f6(58, icmp6(ty, code, rng.bytes(ln), w.cl6, dst or w.my6), dst=dst))
+        cases.append(case(w, frames, ['arp-grid', 'icmp-grid']))
+    return cases
+
+
 # ----------------------------------------------------------------------------- property table
 
 PROPS = {
@@ -295,6 +336,9 @@ PROPS = {
                 rule='frames from the structured frame builder; non-trivial = frame that elicited a reply (mirror relation evaluated)'),
     'C04': dict(gen=lambda rng, tier: gen_mixed(rng, tier), judge='C04', proj=lambda r: r,
                 rule='frames from the structured frame builder, payload sizes 0..4 KiB incl. odd; non-trivial = a reply was emitted and re-parsed / re-checksummed'),
+    'C05': dict(gen=gen_c05, judge='C05', proj=lambda r: r,
+                rule='ARP operations x field variants x handled/unhandled targets; ICMPv4/ICMPv6 type x code grids with payload lengths 0..1472; '
+                     'Neighbour Solicitations (handled/unhandled target, options, truncated); non-trivial = frame for which C05 prescribes an answer or silence'),
     'C06': dict(gen=gen_c06, judge='C06', proj=proj_headers, release=True,
                 rule='all 512 flag words x boundary sequence numbers x IPv4/IPv6 x with/without payload after a non-empty history; non-trivial = delivered segment with SYN set'),
     'C07': dict(gen=gen_flows, judge='C07', proj=proj_headers, release=True,
